@@ -8,6 +8,7 @@ import (
 	"sort"
 	"strconv"
 	"strings"
+	"unicode"
 	"unicode/utf8"
 
 	"github.com/influxdata/influxql"
@@ -93,7 +94,7 @@ func rxSupported(re *syntax.Regexp) bool {
 
 // ---- conditions ----
 
-const rxModes = 5
+const rxModes = 6
 
 // rxCondition builds the condition of the given mode around the regex; parsed from text when
 // the source can be written between slashes, constructed directly otherwise.
@@ -109,8 +110,12 @@ func rxCondition(mode int, src string) (influxql.Expr, error) {
 		text = "(t !~ " + lit + ")"
 	case 3:
 		text = "a = 'x' AND (t !~ " + lit + " OR f(t =~ " + lit + ")) AND ((t =~ " + lit + "))"
-	default:
+	case 4:
 		text = "t =~ " + lit + " OR u !~ " + lit + " AND t = 'ab'"
+	default:
+		// a negated test visited before a positive one (round-3 seeded change C11-2: the joining operator
+		// of the negated test stuck for the tests after it)
+		text = "u !~ " + lit + " AND t =~ " + lit
 	}
 	stmt, err := influxql.ParseStatement("SELECT v FROM m WHERE " + text)
 	if err == nil {
@@ -126,7 +131,7 @@ func rxCondition(mode int, src string) (influxql.Expr, error) {
 				}
 			}
 		})
-		if same && n == []int{1, 1, 1, 3, 2}[mode%rxModes] {
+		if same && n == []int{1, 1, 1, 3, 2, 2}[mode%rxModes] {
 			return cond, nil
 		}
 	}
@@ -154,9 +159,11 @@ func rxCondition(mode int, src string) (influxql.Expr, error) {
 				par(bin(influxql.OR, bin(influxql.NEQREGEX, v("t"), rl()),
 					&influxql.Call{Name: "f", Args: []influxql.Expr{bin(influxql.EQREGEX, v("t"), rl())}}))),
 			par(par(bin(influxql.EQREGEX, v("t"), rl())))), nil
-	default:
+	case 4:
 		return bin(influxql.OR, bin(influxql.EQREGEX, v("t"), rl()),
 			bin(influxql.AND, bin(influxql.NEQREGEX, v("u"), rl()), bin(influxql.EQ, v("t"), &influxql.StringLiteral{Val: "ab"}))), nil
+	default:
+		return bin(influxql.AND, bin(influxql.NEQREGEX, v("u"), rl()), bin(influxql.EQREGEX, v("t"), rl())), nil
 	}
 }
 
@@ -253,6 +260,13 @@ func rxAlphabet(re *syntax.Regexp, max int, wordForeign bool) []rune {
 						add(r - 32)
 					} else if r >= 'A' && r <= 'Z' {
 						add(r + 32)
+					}
+				}
+				if r >= 0x80 {
+					// the other members of the rune's case-folding orbit (Ⅳ/ⅳ, Ⓐ/ⓐ, σ/ς/Σ …): runes that
+					// are no letters have case pairs too (round-3 seeded change C11-3)
+					for f := unicode.SimpleFold(r); f != r; f = unicode.SimpleFold(f) {
+						add(f)
 					}
 				}
 			}
@@ -399,7 +413,7 @@ func propRegexMatch(args []string) string {
 		}
 		for i := 0; i < len(lits); i += step {
 			l := lits[i]
-			cands = append(cands, l, l+"!", "Z"+l, l+"\n", "\n"+l, l+"\xff", strings.ToUpper(l), l+l)
+			cands = append(cands, l, l+"!", "Z"+l, l+"\n", "\n"+l, l+"\xff", strings.ToUpper(l), strings.ToLower(l), foldNext(l), l+l)
 			if len(l) > 0 {
 				_, w := utf8.DecodeLastRuneInString(l)
 				cands = append(cands, l[:len(l)-w], l[:len(l)-1], l[:len(l)-w]+"\xff")
@@ -440,7 +454,7 @@ func propRegexMatch(args []string) string {
 			if d := check(m, fmt.Sprintf("t=%q u=%v", s, u)); d != "" {
 				return d
 			}
-			if mode != 4 {
+			if mode < 4 {
 				break
 			}
 		}
@@ -492,7 +506,7 @@ func propRegexSem(args []string) string {
 var rxCorners = []string{
 	`^foo$`, `^$`, `^(foo|bar)$`, `foo`, `^foo`, `foo$`, `^foo|bar$`, `^(?:foo|bar)$`, `^(foo|bar)baz$`,
 	`^a(b|c)d$`, `^[abc]$`, `^[a-c][x-z]$`, `^(a|b)(c|d)$`, `^((a|b)c|d)$`, `^(a|)$`, `^(|a)$`, `^(a||b)$`,
-	`(?m)^foo$`, `(?m:^foo$)`, `^foo(?m)$`, `(?m)^foo(?-m)$`, `(?i)^foo$`, `^(?i)foo$`, `^(?i:foo)$`, `^f(?i)oo$`, `^(?i:1)$`,
+	`(?m)^foo$`, `(?m:^foo$)`, `^foo(?m)$`, `(?m)^foo(?-m)$`, `(?i)^foo$`, `(?i)^Ⅳ$`, `(?i)^(Ⓐ|12)$`, `^[Ⅳⅳ]$`, `^(Ⅳ|ⅳ)-12$`, `(?i)^10\.0\.0\.1$`, `(?i)^1$`, `(?i)^ǅ$`, `^(?i)foo$`, `^(?i:foo)$`, `^f(?i)oo$`, `^(?i:1)$`,
 	`^[Aa]$`, `^[Kk]$`, `^[Ss]$`, `(?i)^k$`, `(?i)^s$`, `(?s)^a.b$`, `^a.b$`, `(?U)^a+$`, `^a+$`, `^a*$`, `^a?$`, `^ab?$`, `^a{2}$`, `^a{2,3}$`,
 	`^a{0}$`, `^(a|b){2}$`, `^(ab){1,2}$`, `^a{2,}$`, `^\Afoo\z$`, `\Afoo\z`, `^^foo$$`, `^foo$\n`, `\n^foo$`, `^foo\b$`, `^\bfoo$`, `^foo\B$`,
 	`^\Qa.b\E$`, `^a\.b$`, `^a\/b$`, `^a/b$`, `^\x{e9}$`, `^é|e$`, `^(é|e)$`, `^\x{10FFFF}$`, `^[\x{10FFFE}-\x{10FFFF}]$`,
@@ -531,11 +545,20 @@ func rxLimitCorners() []string {
 	return out
 }
 
+// foldNext replaces every rune by the next member of its case-folding orbit.
+func foldNext(s string) string {
+	rs := []rune(s)
+	for i, r := range rs {
+		rs[i] = unicode.SimpleFold(r)
+	}
+	return string(rs)
+}
+
 type rxGen struct {
 	r *rand.Rand
 }
 
-var rxLits = []string{"a", "b", "c", "x", "y", "ab", "foo", "bar", "1", "_", " ", "é", "K", "k", "s", "S", "A", "z", "0", "-", "a1", "ba"}
+var rxLits = []string{"a", "b", "c", "x", "y", "ab", "foo", "bar", "1", "_", " ", "é", "K", "k", "s", "S", "A", "z", "0", "-", "a1", "ba", "Ⅳ", "ⅳ", "Ⓐ", "12", "rack-Ⅳ", "ǅ", "σ", "İ"}
 var rxEsc = []string{`\.`, `\/`, `\\`, `\$`, `\^`, `\|`, `\(`, `\)`, `\[`, `\*`, `\+`, `\?`, `\{`, `\n`, `\t`, `\x41`, `\x{e9}`, `\x{212a}`, `\x{17f}`, `\x{10000}`, `\Qa|b\E`, `\Q.\E`, `\-`, `\x{FFFD}`, `\x{D800}`, `\x{DFFF}`, `\101`, `/`, `'`, `"`}
 var rxClasses = []string{`[abc]`, `[a-c]`, `[ab]`, `[a-b]`, `[^a]`, `[^\s\S]`, `\d`, `\w`, `\s`, `\D`, `[[:digit:]]`, `[x-z]`, `[a-cx-z]`, `[aA]`, `[kK]`, `[a\n]`, `[^\n]`, `[a-ce-g]`, `[ac]`, `.`, `[\x{e8}-\x{ea}]`, `[0-1]`, `[01]`, `[a-z]`, `[\d]`, `[a\-c]`, `[]a]`, `[\x{FFFC}-\x{FFFD}]`, `[\x{D7FF}\x{E000}]`, `[\x{D7FF}-\x{D800}]`, `[é]`, `[_1]`}
 var rxAnchors = []string{`^`, `$`, `\A`, `\z`, `\b`, `\B`, `(?m)^`, `(?m)$`, `(?m:^)`, `(?m:$)`}
